@@ -12,9 +12,12 @@ def classify(a, b):
     """name the kind of difference between two observation lines (signature for known findings)"""
     pa, pb = re.split(r" \|\|? ", a), re.split(r" \|\|? ", b)
     if pa[0] != pb[0]:
-        if pa[0].split()[0] != pb[0].split()[0]:
+        ga, gb = (dict(t.split("=", 1) for t in x.split(" ") if "=" in t) for x in (pa[0], pb[0]))
+        if ga.get("cc") != gb.get("cc"):
             return "conflicted-count-depends-on-arrival-order"
-        return "document-count-depends-on-arrival-order"
+        if ga.get("dc") != gb.get("dc"):
+            return "document-count-depends-on-arrival-order"
+        return "iterators-depend-on-arrival-order"
     for x, y in zip(pa, pb):
         if x != y:
             i = 0
@@ -28,6 +31,167 @@ def classify(a, b):
                 return "source-transaction-order-depends-on-map-iteration"
             return "resolve-result-depends-on-arrival-order"
     return "observation-length-differs"
+
+
+FIELDS = ["Context", "Controller", "VerificationMethod", "Authentication", "AssertionMethod", "CapabilityInvocation",
+          "CapabilityDelegation", "KeyAgreement", "Service"]
+
+
+def render_doc(d):
+    return d["id"] + "{" + ";".join(fn + ":[" + ",".join(e["id"] + "=" + e["body"] for e in (d["f"].get(fn) or [])) + "]" for fn in FIELDS) + "}"
+
+
+def content_name(d):
+    h = 14695981039346656037
+    for b in render_doc(d).encode():
+        h = ((h ^ b) * 1099511628211) & 0xFFFFFFFFFFFFFFFF
+    return "H%016x" % h
+
+
+def parse_line(line):
+    """observation line -> {'glob': str, 'dids': {did: {label: resolved result}}}"""
+    head, *table = line.split(" || ")
+    tab = {}
+    for t in table:
+        k, _, v = t.partition("=")
+        tab[k] = v
+    seg = head.split(" | ")
+    out = {"glob": seg[0], "dids": {}}
+    cur = None
+    for x in seg[1:]:
+        if x.startswith("DID "):
+            cur = out["dids"].setdefault(x[4:], {})
+        elif cur is not None:
+            if x.startswith("conflicted="):
+                cur["conflicted="] = x[len("conflicted="):]
+            else:
+                label, _, ref = x.rpartition("#")
+                cur[label] = tab.get("#" + ref, x)
+    return out
+
+
+RES = re.compile(r"ok doc=(.*) created=(\d+) updated=(\S+) hash=(\S+) prev=(\S+) src=\[([^\]]*)\] deact=(true|false)$")
+
+
+def parse_res(r):
+    m = RES.match(r or "")
+    if not m:
+        return None
+    created = int(m.group(2))
+    return {"doc": m.group(1), "created": created, "updated": created if m.group(3) == "-" else int(m.group(3)), "hash": m.group(4),
+            "src": [x for x in m.group(6).split(",") if x], "deact": m.group(7) == "true"}
+
+
+def check_seq_line(op, line, i, flag):
+    """clauses of the property evaluated on ONE full observation of the implementation, against expectations computed
+    from the event set alone (independent of the Lean model)"""
+    for kind in ("adderr", "addpanic", "addswallowed"):
+        if kind + "@" in line:
+            flag("add-refused", "add-of-accepted-transaction-fails-in-some-arrival-order" if kind == "adderr" else kind,
+                 "store.Add of a valid event returned an error / panicked / swallowed a storage failure", i)
+    obs = parse_line(re.sub(r"^((adderr|addpanic|addswallowed)@\S+ )+", "", line))
+    events, times = op["events"], op["times"]
+    per = {}
+    for k, e in enumerate(events):
+        per.setdefault(e["doc"]["id"], []).append((k, e))
+    g = dict(x.split("=", 1) for x in obs["glob"].split(" ") if "=" in x)
+    dids = sorted(per)
+    # counters, iterators and per-DID flags must tell the same story
+    nconfl = sum(1 for d in dids if obs["dids"].get(d, {}).get("conflicted=") == "true")
+    nact = sum(1 for d in dids if (parse_res(obs["dids"].get(d, {}).get("ad:")) or {"deact": True})["deact"] is False)
+    if g.get("dc") != str(len(dids)) or g.get("niter") != str(len(dids)):
+        flag("document-count-wrong", "document-count-or-iterate-disagrees-with-dids", f"dc={g.get('dc')} niter={g.get('niter')} for {len(dids)} DIDs", i)
+    if g.get("iter") != "[" + ",".join(dids) + "]":
+        flag("iterate-wrong", "iterate-does-not-list-every-did-once", f"Iterate visited {g.get('iter')}", i)
+    if g.get("cc") != str(nconfl) or g.get("nconf") != str(nconfl):
+        flag("conflicted-count-wrong", "conflicted-count-disagrees-with-conflicted-iterator", f"cc={g.get('cc')} nconf={g.get('nconf')} but {nconfl} DIDs are conflicted", i)
+    if g.get("nactive") != str(nact):
+        flag("finder-wrong", "finder-active-count", f"Find(IsActive) gave {g.get('nactive')} documents, {nact} DIDs are active", i)
+    if g.get("unknown") != "err:not-found/err:storage-not-found":
+        flag("unknown-did", "unknown-did-resolves", f"unknown DID answers {g.get('unknown')}", i)
+    for did, evs in per.items():
+        pr = obs["dids"].get(did, {})
+        order = sorted(evs, key=lambda ke: (ke[1]["clock"], ke[1]["time"], int(ke[1]["ref"], 16)))
+        top, first = order[-1][1], order[0][1]
+        ad = parse_res(pr.get("ad:"))
+        deact_evs = [e for _, e in evs if not e["doc"]["f"].get("Controller") and not e["doc"]["f"].get("CapabilityInvocation")]
+        # history = the published documents in (clock, signing time, ref) order
+        want = ["%d:%d:%d:%s" % (v, first["time"], e["time"], content_name(e["doc"])) for v, (_, e) in enumerate(order)]
+        for v in range(len(order) + 2):
+            exp = "ok [" + " ".join(want[v:]) + "]"
+            if pr.get(f"hist{v}:") != exp:
+                flag("history-wrong", "history-is-not-the-sorted-event-list", f"HistorySinceVersion({did},{v}) = {str(pr.get(f'hist{v}:'))[:80]} expected {exp[:80]}", i)
+                break
+        if ad is None:
+            flag("latest-unresolvable", "latest-version-unresolvable", f"Resolve({did}, allowDeactivated) = {str(pr.get('ad:'))[:60]}", i)
+            continue
+        # latest version: created by the first event, sourced (at least) by the last event, deactivated iff any deactivation
+        if ad["created"] != first["time"] or top["ref"][:10] not in ad["src"]:
+            flag("latest-wrong", "latest-version-not-derived-from-sorted-events", f"{did}: created={ad['created']} src={ad['src']} (first event time {first['time']}, last event {top['ref'][:10]})", i)
+        if len(ad["src"]) == 1 and (ad["doc"] != render_doc(top["doc"]) or ad["hash"] != content_name(top["doc"])):
+            flag("latest-wrong", "unconflicted-latest-is-not-the-last-published-document", f"{did}: latest is not the last event's document", i)
+        if ad["deact"] != bool(deact_evs):
+            flag("deactivated-status-wrong", "deactivated-status-wrong", f"{did}: latest deact={ad['deact']} but the set holds {len(deact_evs)} deactivations", i)
+        # (b) a deactivated DID never resolves as active again
+        want_nil = "err:deactivated" if deact_evs else pr.get("ad:")
+        for label in ("nil:", "nad:"):
+            if pr.get(label) != want_nil:
+                flag("deactivated-resolves-active", "deactivated-did-resolves-as-active" if deact_evs else "latest-" + label.rstrip(":") + "-differs",
+                     f"event set {op['set']}: Resolve({did}, {label}) answers {str(pr.get(label))[:60]}", i)
+        # conflicted flag / Conflicted() / Iterate() / Finder entries are the latest version
+        conflicted = len(ad["src"]) > 1
+        if pr.get("conflicted=") != ("true" if conflicted else "false") or pr.get("conf:") != (pr.get("ad:") if conflicted else "-"):
+            flag("conflicted-iterator-wrong", "conflicted-iterator-entry-is-not-the-latest-version", f"{did}: {len(ad['src'])} source transactions, conflicted={pr.get('conflicted=')}, entry {str(pr.get('conf:'))[:50]}", i)
+        if pr.get("iter:") != pr.get("ad:"):
+            flag("iterate-wrong", "iterate-entry-is-not-the-latest-version", f"{did}: Iterate entry differs from Resolve(allowDeactivated)", i)
+        if pr.get("active:") != ("-" if ad["deact"] else ad["doc"]):
+            flag("finder-wrong", "finder-entry-wrong", f"{did}: Find(IsActive) entry {str(pr.get('active:'))[:50]}", i)
+        # (c) a later update that references all branches resolves the conflict
+        refs = {e["ref"] for _, e in evs}
+        if len(evs) > 1 and set(top["prevs"]) >= (refs - {top["ref"]}) and all(e["clock"] < top["clock"] for _, e in evs if e is not top):
+            if conflicted or pr.get("conflicted=") == "true":
+                flag("covering-update-still-conflicted", "covering-update-does-not-resolve-conflict",
+                     f"event set {op['set']}: last update references all other transactions of {did} but the DID is still conflicted", i)
+        # every answer of Resolve satisfies the filters it was asked with
+        mine = [k for k, _ in evs]
+        tmax, tmin = max(e["time"] for _, e in evs), min(e["time"] for _, e in evs)
+
+        def sound(label, h=None, s=None, t=None, allow=True, must=None):
+            r = pr.get(label)
+            if r is None:
+                return
+            res = parse_res(r)
+            bad = None
+            if res is None:
+                if r not in ("err:not-found", "err:deactivated"):
+                    bad = "unexpected outcome " + r[:50]
+                elif must == "ok":
+                    bad = "no answer although one exists: " + r
+            else:
+                if must == "none":
+                    bad = "answer for a query nothing can match"
+                if not allow and res["deact"]:
+                    bad = "deactivated version without allowDeactivated"
+                if h is not None and res["hash"] != h:
+                    bad = f"hash {res['hash']} != requested {h}"
+                if s is not None and s[:10] not in res["src"]:
+                    bad = f"source tx {s[:10]} not in {res['src']}"
+                if t is not None and (res["updated"] > t or res["created"] > t):
+                    bad = f"version created={res['created']} updated={res['updated']} for resolve time {t}"
+            if bad:
+                flag("resolve-unsound", "resolve-answer-violates-its-filter", f"Resolve({did}, {label}) : {bad}", i)
+        for ti, t in enumerate(times):
+            sound(f"t{ti}:", t=t, allow=False, must="none" if t < tmin else None)
+            sound(f"ta{ti}:", t=t, must="none" if t < tmin else ("ok" if t >= tmax else None))
+            if t >= tmax and pr.get(f"ta{ti}:") != pr.get("ad:"):
+                flag("resolve-unsound", "resolve-at-late-time-is-not-latest", f"Resolve({did}, time {t} >= all signing times, allowDeactivated) differs from latest", i)
+        for k, e in enumerate(events):
+            sound(f"s{k}:", s=e["ref"], must="ok" if e["doc"]["id"] == did else "none")
+            sound(f"h{k}:", h=content_name(e["doc"]))
+        for k, p in enumerate(op.get("probes") or []):
+            h = content_name(events[mine[p["h"] % len(mine)]]["doc"]) if p["h"] >= 0 else None
+            s = events[mine[p["s"] % len(mine)]]["ref"] if p["s"] >= 0 else None
+            sound(f"p{k}:", h=h, s=s, t=p["t"] if p["t"] >= 0 else None, allow=p["ad"], must="none" if -2 in (p["h"], p["s"]) else None)
 
 
 def run(ctx):
@@ -72,19 +236,25 @@ def run(ctx):
     ops = ctx.read_lines(ops_p)
 
     # ---- direct property oracle on the implementation's own outputs:
-    # every arrival order of the same event set (and the reopened store) must give the same observation
+    # every arrival order of the same event set must give the same observation (full observations among themselves,
+    # after-restart observations among themselves)
     by_set = {}
     cur_set = None
     sizes = Counter()
     feats = Counter()
     distinct = set()
+    seq_of = {}          # line index -> index of the seq op it belongs to
+    last_seq = None
     for i, line in enumerate(impl):
         op = json.loads(ops[i]) if i < len(ops) and ops[i] else {}
+        kind = "again"
         if op.get("op") == "seq":
+            kind = "seq"
+            last_seq = i
             cur_set = op["set"]
             n = len(op["events"])
             sizes[n] += 1
-            key = (cur_set, tuple(op["arrival"]))
+            key = (cur_set, tuple(op["arrival"]), tuple(op.get("fail") or []))
             if n >= 2:
                 distinct.add(key)
             if "conflicted=true" in line:
@@ -93,80 +263,63 @@ def run(ctx):
                 feats["deactivated"] += 1
             if len(op["arrival"]) > n:
                 feats["with-duplicates"] += 1
-            if len({e["doc"]["id"] for e in op["events"]}) > 1:
-                feats["two-dids"] += 1
-        by_set.setdefault(cur_set, []).append((i, line))
+            feats["dids=%d" % len({e["doc"]["id"] for e in op["events"]})] += 1
+            fl = op.get("fail") or []
+            if any(c in (1, 2, 3) for c in fl):
+                feats["with-injected-storage-failure"] += 1
+            if 4 in fl:
+                feats["with-restart-mid-sequence"] += 1
+            if any(e["time"] % 1000000000 for e in op["events"]):
+                feats["sub-second-times"] += 1
+        seq_of[i] = last_seq
+        by_set.setdefault((cur_set, kind), []).append((i, line))
     oracle_bad = 0
     seen_sig = set()
-    for s, lines in by_set.items():
+
+    def seq_op(k):
+        return ops[seq_of.get(k, k)] if seq_of.get(k, k) is not None else ops[k]
+    strip_add = lambda l: re.sub(r"^((adderr|addpanic|addswallowed)@\S+ )+", "", l)
+    for (s, kind), lines in by_set.items():
         ref_i, ref = lines[0]
         for i, l in lines[1:]:
-            if l != ref:
+            if strip_add(l) != strip_add(ref):
                 oracle_bad += 1
-                sig = "C10:" + classify(ref, l)
+                sig = "C10:" + classify(strip_add(ref), strip_add(l))
                 if sig in seen_sig:
                     continue
                 seen_sig.add(sig)
                 # replay = the two arrival sequences that disagree (seq ops only)
-                def seq_op(k):
-                    while k >= 0 and json.loads(ops[k]).get("op") != "seq":
-                        k -= 1
-                    return ops[k]
-                ctx.violation(sig, f"two arrival orders of event set {s} give different observable state (lines {ref_i} and {i})",
+                ctx.violation(sig, f"two arrival orders of event set {s} give different observable state ({kind} lines {ref_i} and {i})",
                               f"{sig.split(':')[1]}.jsonl", seq_op(ref_i) + "\n" + seq_op(i) + "\n")
     ctx.oblige("oracle:all-arrival-orders-agree(impl)", oracle_bad == 0, f"{oracle_bad} disagreeing sequences")
 
     # ---- further clauses of the property, evaluated on the implementation's outputs alone
-    def probe(line, did, label):
-        head, *table = line.split(" || ")
-        tab = {}
-        for t in table:
-            k, _, v = t.partition("=")
-            tab[k] = v
-        seg = head.split(" | ")
-        in_did = False
-        for x in seg:
-            if x.startswith("DID "):
-                in_did = (x[4:] == did)
-            elif in_did and x.startswith(label):
-                return tab.get(x[len(label):], x)
-            elif in_did and label == "conflicted=" and x.startswith("conflicted="):
-                return x[len("conflicted="):]
-        return None
     clause_bad = Counter()
+
+    def flag(name, sig, what, i):
+        clause_bad[name] += 1
+        if clause_bad[name] == 1:
+            ctx.violation("C10:" + sig, what + f" (line {i}: {impl[i][:60]})", name + ".jsonl", seq_op(i))
+
+    full_of_seq = {}
     for i, line in enumerate(impl):
         op = json.loads(ops[i]) if i < len(ops) and ops[i] else {}
-        if op.get("op") != "seq":
-            continue
-        if "adderr@" in line:
-            clause_bad["add-refused"] += 1
-            if clause_bad["add-refused"] == 1:
-                ctx.violation("C10:add-of-accepted-transaction-fails-in-some-arrival-order", f"store.Add returned an error for a valid event (line {i}): {line[:80]}",
-                              "add-refused.jsonl", ops[i])
-        per = {}
-        for e in op["events"]:
-            per.setdefault(e["doc"]["id"], []).append(e)
-        for did, evs in per.items():
-            # (b) a deactivated DID never resolves as active again
-            deact = [e for e in evs if not e["doc"]["f"].get("Controller") and not e["doc"]["f"].get("CapabilityInvocation")]
-            if deact:
-                r = probe(line, did, "nil:")
-                if r is not None and not r.startswith("err:deactivated"):
-                    clause_bad["deactivated-resolves-active"] += 1
-                    if clause_bad["deactivated-resolves-active"] == 1:
-                        ctx.violation("C10:deactivated-did-resolves-as-active", f"event set {op['set']} holds a deactivation of {did} but Resolve(nil) answers {r[:60]} (line {i})",
-                                      "deactivated-resolves-active.jsonl", ops[i])
-            # (c) a later update that references all branches resolves the conflict
-            refs = {e["ref"] for e in evs}
-            top = max(evs, key=lambda e: (e["clock"], e["time"], e["ref"]))
-            if len(evs) > 1 and set(top["prevs"]) >= (refs - {top["ref"]}) and all(e["clock"] < top["clock"] for e in evs if e is not top):
-                c = probe(line, did, "conflicted=")
-                if c == "true":
-                    clause_bad["covering-update-still-conflicted"] += 1
-                    if clause_bad["covering-update-still-conflicted"] == 1:
-                        ctx.violation("C10:covering-update-does-not-resolve-conflict", f"event set {op['set']}: last update references all other transactions of {did} but the DID is still conflicted (line {i})",
-                                      "covering-update-still-conflicted.jsonl", ops[i])
-    ctx.oblige("oracle:deactivated-never-active/covering-update-resolves/add-never-refused(impl)", not clause_bad, str(dict(clause_bad)))
+        if op.get("op") == "seq":
+            check_seq_line(op, line, i, flag)
+            full_of_seq[i] = parse_line(strip_add(line))
+        elif seq_of.get(i) in full_of_seq:
+            # after a restart (same database, new store object) nothing observable may change
+            before, after = full_of_seq[seq_of[i]], parse_line(line)
+            if before["glob"] != after["glob"]:
+                flag("restart-changes-observation", "restart-changes-counters-or-iterators", f"counters/iterators differ after re-opening the store: {before['glob']} vs {after['glob']}", i)
+            for did, pr in after["dids"].items():
+                for label, val in pr.items():
+                    if before["dids"].get(did, {}).get(label) != val:
+                        flag("restart-changes-observation", "restart-changes-" + label.rstrip(":="), f"{label} of {did} differs after re-opening the store", i)
+                        break
+    ctx.oblige("oracle:clauses(impl): deactivated-never-active, covering-update-resolves, add-never-refused, history=sorted-events, "
+               "counters=iterators=per-DID-flags, conflicted/iterate entries=latest, resolve answers satisfy their filters, restart changes nothing",
+               not clause_bad, str(dict(clause_bad)))
     oracle_bad += sum(clause_bad.values())
 
     # ---- correspondence model vs implementation
